@@ -21,6 +21,7 @@ def parseOp : List String → Option Op
   | ["xt", _t, g, h2] => do pure (.exitTo (gk (← g.toNat?)) (hk (← h2.toNat?)))
   | ["dg", _t, g] => do pure (.dropGuard (gk (← g.toNat?)))
   | ["is", t, h] => do pure (.inScope (← t.toNat?) (hk (← h.toNat?)))
+  | ["isp", t, h] => do pure (.inScope (← t.toNat?) (hk (← h.toNat?)))      -- the closure unwinds: the guard still exits
   | ["rc", _t, h] => do pure (.record (hk (← h.toNat?)))
   | ["ff", _t, h, h2] => do pure (.follows (hk (← h.toNat?)) (hk (← h2.toNat?)))
   | ["cu", t, h] => do pure (.current (← t.toNat?) (hk (← h.toNat?)))
